@@ -1653,7 +1653,13 @@ class FileBuilder:
         """
         # Cast the result to a string in case "filename"'s type is a subclass
         # of str
-        return str(os.path.abspath(os.fsdecode(filename)))
+        sanitized = str(os.path.abspath(os.fsdecode(filename)))
+        if os.sep == '/' and sanitized.startswith('//'):
+            # posixpath.normpath preserves exactly two leading slashes, but
+            # '//foo' and '/foo' refer to the same file. All of our
+            # bookkeeping is keyed by filename, so use a single spelling.
+            sanitized = '/' + sanitized.lstrip('/')
+        return sanitized
 
     @staticmethod
     def _try_to_remove_file(filename):
